@@ -399,6 +399,19 @@ class RenderContext:
         ):
             raise LoopIterationLimitError("loop iteration limit reached", token=None)
 
+    @contextmanager
+    def carry_loop_iterations(self, length: int) -> Iterator[None]:
+        """Count _length_ repetitions of a block towards the loop iteration limit.
+
+        For tags that repeat a block without pushing a `ForLoop` onto the loop stack.
+        """
+        carry = self.loop_iteration_carry
+        self.loop_iteration_carry = carry * length
+        try:
+            yield
+        finally:
+            self.loop_iteration_carry = carry
+
     def copy(
         self,
         namespace: Mapping[str, object],
